@@ -1,7 +1,638 @@
-//! C15 — not implemented yet.
+//! C15 — corrupt or hostile input is reported as an error, never a panic.
+//!
+//! One case = one generated valid file of a *target* plus a deterministic family of mutants of it
+//! (every position for small inputs): single-byte substitutions, 2/4-byte little-endian words set to
+//! boundary values (as if every offset were a length or count field), truncations, and a few
+//! random byte strings behind the valid magic. Mutation happens where it reaches the decoders:
+//! BAM/BCF as uncompressed streams, BGZF-wrapped text/index payloads in the decompressed domain
+//! (re-framed with correct CRC32/ISIZE), CRAM with block and container-header CRC32s re-sealed.
+//! Every mutant is read with the accessor sweep on; index mutants that still read `Ok` are used to
+//! query a valid data file. Oracle: no panic (caught per mutant; signature = panic site), no abort,
+//! stack overflow or hang (isolated shard process + per-case watchdog), no runaway reader.
 
+use crate::drivers::{self, Delivery, Doc, Ev, ReadOpts};
+use crate::engine::shard::ClosureSub;
 use crate::engine::*;
+use crate::r#gen::payload::XorShift;
+use crate::oracle::{bgzf_walk, framing};
+use noodles_bam as bam;
+use noodles_bgzf as bgzf;
+use noodles_core::Region;
+use noodles_cram as cram;
+use noodles_csi as csi;
+use noodles_fasta as fasta;
+use noodles_tabix as tabix;
+use proptest::prelude::*;
+use serde::{Deserialize, Serialize};
+use std::io::{Cursor, Read};
+use std::sync::Arc;
+
+#[derive(Clone, Debug, Serialize, Deserialize)]
+pub struct Case {
+    pub doc: Doc,
+    /// data file for the index-query battery
+    pub data_doc: Option<Doc>,
+    pub seed: u32,
+    /// run only this mutant index (hand-written / attributed replays); None = the whole family
+    pub only: Option<u32>,
+}
+
+#[derive(Clone, Copy, Debug, PartialEq, Eq)]
+pub enum Domain {
+    /// mutate the file bytes as they are
+    Raw,
+    /// mutate the decompressed BGZF payload and re-frame it
+    BgzfInner,
+    /// mutate the file and re-seal CRAM checksums
+    CramSealed,
+    /// mutate the gunzipped text and gzip it again (crai)
+    GzipInner,
+}
+
+pub struct Target {
+    pub name: &'static str,
+    /// driver that writes the valid file and reads the mutants
+    pub driver: &'static str,
+    pub domain: Domain,
+    /// also run the eager BAM reader etc.
+    pub extra_driver: Option<&'static str>,
+}
+
+pub const TARGETS: &[Target] = &[
+    Target { name: "bgzf", driver: "bgzf", domain: Domain::Raw, extra_driver: Some("bgzf-mt") },
+    Target { name: "bam-stream", driver: "bam-raw", domain: Domain::Raw, extra_driver: Some("bam-raw-eager") },
+    Target { name: "bam-file", driver: "bam", domain: Domain::Raw, extra_driver: None },
+    Target { name: "bcf-stream", driver: "bcf-raw", domain: Domain::Raw, extra_driver: None },
+    Target { name: "bcf-file", driver: "bcf", domain: Domain::Raw, extra_driver: None },
+    Target { name: "sam", driver: "sam", domain: Domain::Raw, extra_driver: None },
+    Target { name: "sam.gz-payload", driver: "sam.gz", domain: Domain::BgzfInner, extra_driver: None },
+    Target { name: "vcf", driver: "vcf", domain: Domain::Raw, extra_driver: None },
+    Target { name: "vcf.gz-payload", driver: "vcf.gz", domain: Domain::BgzfInner, extra_driver: None },
+    Target { name: "cram-sealed", driver: "cram", domain: Domain::CramSealed, extra_driver: None },
+    Target { name: "cram-file", driver: "cram", domain: Domain::Raw, extra_driver: None },
+    Target { name: "fasta", driver: "fasta", domain: Domain::Raw, extra_driver: None },
+    Target { name: "fastq", driver: "fastq", domain: Domain::Raw, extra_driver: None },
+    Target { name: "gff", driver: "gff", domain: Domain::Raw, extra_driver: None },
+    Target { name: "gtf", driver: "gtf", domain: Domain::Raw, extra_driver: None },
+    Target { name: "bed3", driver: "bed3", domain: Domain::Raw, extra_driver: None },
+    Target { name: "bed6", driver: "bed6", domain: Domain::Raw, extra_driver: Some("bed4") },
+    Target { name: "bai", driver: "bai", domain: Domain::Raw, extra_driver: None },
+    Target { name: "csi-payload", driver: "csi", domain: Domain::BgzfInner, extra_driver: None },
+    Target { name: "tabix-payload", driver: "tabix", domain: Domain::BgzfInner, extra_driver: None },
+    Target { name: "gzi", driver: "gzi", domain: Domain::Raw, extra_driver: None },
+    Target { name: "fai", driver: "fai", domain: Domain::Raw, extra_driver: None },
+    Target { name: "crai-payload", driver: "crai", domain: Domain::GzipInner, extra_driver: None },
+];
+
+const ALL_POSITIONS_LIMIT: usize = 3000;
+const SAMPLED_POSITIONS: usize = 1200;
+const BYTE_VALUES: usize = 6;
+const WORD_VALUES: [u32; 12] = [0, 1, 0x7f, 0x80, 0xff, 0xffff, 0x8000, 0x00ff_ffff, 0x7fff_ffff, 0x8000_0000, 0xffff_ffff, 0xffff_fffe];
+
+#[derive(Clone, Debug)]
+enum Mutation {
+    Byte { pos: usize, sel: u8 },
+    Word { pos: usize, width: u8, val: u32 },
+    Truncate(usize),
+    Noise { keep: usize, len: usize, seed: u64 },
+    DeleteByte(usize),
+    DupByte(usize),
+}
+
+fn apply(base: &[u8], m: &Mutation) -> Vec<u8> {
+    let mut v = base.to_vec();
+    match m {
+        Mutation::Byte { pos, sel } => {
+            let b = v[*pos];
+            v[*pos] = match sel % BYTE_VALUES as u8 {
+                0 => 0x00,
+                1 => 0xff,
+                2 => b ^ 0x01,
+                3 => b ^ 0x80,
+                4 => b.wrapping_add(1),
+                _ => b.wrapping_sub(1),
+            };
+        }
+        Mutation::Word { pos, width, val } => {
+            let le = val.to_le_bytes();
+            for i in 0..(*width as usize) {
+                if pos + i < v.len() {
+                    v[pos + i] = le[i];
+                }
+            }
+        }
+        Mutation::Truncate(k) => v.truncate(*k),
+        Mutation::Noise { keep, len, seed } => {
+            v.truncate(*keep);
+            let mut r = XorShift::new(*seed);
+            for _ in 0..*len {
+                v.push((r.next() & 0xff) as u8);
+            }
+        }
+        Mutation::DeleteByte(p) => {
+            v.remove(*p);
+        }
+        Mutation::DupByte(p) => {
+            let b = v[*p];
+            v.insert(*p, b);
+        }
+    }
+    v
+}
+
+/// The deterministic mutant family of a base byte string.
+fn family(base_len: usize, seed: u32) -> Vec<Mutation> {
+    let mut out = Vec::new();
+    if base_len == 0 {
+        return out;
+    }
+    let mut r = XorShift::new(seed as u64 + 1234567);
+    let positions: Vec<usize> = if base_len <= ALL_POSITIONS_LIMIT {
+        (0..base_len).collect()
+    } else {
+        // the first 600 bytes (headers) densely, then a stratified sample
+        let mut v: Vec<usize> = (0..600).collect();
+        let stride = (base_len - 600) / (SAMPLED_POSITIONS - 600);
+        let mut x = 600;
+        while x < base_len {
+            v.push((x + (r.next() as usize % stride.max(1))).min(base_len - 1));
+            x += stride.max(1);
+        }
+        v.sort_unstable();
+        v.dedup();
+        v
+    };
+    for pos in &positions {
+        let x = r.next();
+        out.push(Mutation::Byte { pos: *pos, sel: ((x % BYTE_VALUES as u64) as u8) });
+        // words: boundary values as if this offset began a length/count field; the three values that
+        // make a 32-bit length ≥ 2 GiB are drawn rarely (a reader may legitimately allocate that much
+        // before it hits the end of input, which is slow but not one of the listed failures)
+        if (x >> 8) % 2 == 0 {
+            let huge = (x >> 16) % 40 == 0;
+            let vi = if huge { 8 + ((x >> 24) % 4) as usize } else { ((x >> 24) % 8) as usize };
+            let width = if (x >> 32) % 3 == 0 { 2 } else { 4 };
+            out.push(Mutation::Word { pos: *pos, width, val: WORD_VALUES[vi] });
+        }
+        if (x >> 40) % 16 == 0 {
+            out.push(Mutation::DeleteByte(*pos));
+        }
+        if (x >> 44) % 16 == 0 {
+            out.push(Mutation::DupByte(*pos));
+        }
+    }
+    for _ in 0..6 {
+        out.push(Mutation::Truncate(r.next() as usize % base_len));
+    }
+    for _ in 0..4 {
+        let keep = [0usize, 4, 8, 26][(r.next() % 4) as usize].min(base_len);
+        out.push(Mutation::Noise { keep, len: (r.next() % 200) as usize, seed: r.next() });
+    }
+    out
+}
+
+fn gunzip_all(b: &[u8]) -> Option<Vec<u8>> {
+    let mut d = flate2::read::MultiGzDecoder::new(b);
+    let mut v = Vec::new();
+    d.read_to_end(&mut v).ok()?;
+    Some(v)
+}
+
+fn gzip(b: &[u8]) -> Vec<u8> {
+    use std::io::Write as _;
+    let mut e = flate2::write::GzEncoder::new(Vec::new(), flate2::Compression::fast());
+    let _ = e.write_all(b);
+    e.finish().unwrap_or_default()
+}
+
+/// Split a BGZF payload into blocks of the original sizes (so the block layout is kept) and
+/// re-frame.
+fn reframe(payload: &[u8], sizes: &[usize]) -> Vec<u8> {
+    let mut blocks: Vec<Vec<u8>> = Vec::new();
+    let mut off = 0;
+    for s in sizes {
+        let end = (off + s).min(payload.len());
+        blocks.push(payload[off..end].to_vec());
+        off = end;
+    }
+    while off < payload.len() {
+        let end = (off + 60000).min(payload.len());
+        blocks.push(payload[off..end].to_vec());
+        off = end;
+    }
+    bgzf_walk::build_file(&blocks, 1, true)
+}
+
+struct Prepared {
+    /// the bytes that get mutated
+    base: Vec<u8>,
+    /// block sizes of the original file (BgzfInner)
+    sizes: Vec<usize>,
+}
+
+fn prepare(t: &Target, file: &[u8]) -> Result<Prepared, String> {
+    match t.domain {
+        Domain::Raw | Domain::CramSealed => Ok(Prepared { base: file.to_vec(), sizes: vec![] }),
+        Domain::BgzfInner => {
+            let members = bgzf_walk::walk(file)?;
+            Ok(Prepared { base: bgzf_walk::concat(&members), sizes: members.iter().map(|m| m.data.len()).collect() })
+        }
+        Domain::GzipInner => Ok(Prepared { base: gunzip_all(file).ok_or("cannot gunzip")?, sizes: vec![] }),
+    }
+}
+
+fn finalize(t: &Target, p: &Prepared, mutated: Vec<u8>) -> Vec<u8> {
+    match t.domain {
+        Domain::Raw => mutated,
+        Domain::CramSealed => {
+            let mut m = mutated;
+            framing::cram_reseal(&mut m);
+            m
+        }
+        Domain::BgzfInner => reframe(&mutated, &p.sizes),
+        Domain::GzipInner => gzip(&mutated),
+    }
+}
+
+/// Query battery for an index that read `Ok` (its contents are arbitrary): results are ignored,
+/// only panics, hangs and runaways matter.
+fn query_battery(kind: &str, index_bytes: &[u8], data: &DataFile, fails: &mut Fails, what: &str) {
+    const MAX_RESULTS: usize = 3000;
+    let regions: Vec<Region> = ["sq0", "sq0:1-100", "sq0:50-51", "sq1", "sq1:1-1000000", "sq2:100-200", "sq0:16384-16385", "sq0:1-536870911"].iter().filter_map(|s| s.parse().ok()).collect();
+    let r = panics::catch(|| match kind {
+        "bai" | "csi" | "tabix" => {
+            // alignments through BAM
+            macro_rules! run_bam {
+                ($index:expr) => {{
+                    let index = $index;
+                    let mut rd = bam::io::Reader::new(Cursor::new(&data.bam[..]));
+                    if let Ok(header) = rd.read_header() {
+                        for region in &regions {
+                            if let Ok(q) = rd.query(&header, &index, region) {
+                                for (i, rec) in q.records().enumerate() {
+                                    if rec.is_err() || i > MAX_RESULTS {
+                                        break;
+                                    }
+                                }
+                            }
+                        }
+                        if let Ok(q) = rd.query_unmapped(&index) {
+                            for (i, rec) in q.enumerate() {
+                                if rec.is_err() || i > MAX_RESULTS {
+                                    break;
+                                }
+                            }
+                        }
+                    }
+                    // and through the bgzipped VCF reader (tabix-style name resolution)
+                    let mut vr = noodles_vcf::io::Reader::new(bgzf::io::Reader::new(Cursor::new(&data.vcf_gz[..])));
+                    if let Ok(vh) = vr.read_header() {
+                        for region in &regions {
+                            if let Ok(q) = vr.query(&vh, &index, region) {
+                                for (i, rec) in q.records().enumerate() {
+                                    if rec.is_err() || i > MAX_RESULTS {
+                                        break;
+                                    }
+                                }
+                            }
+                        }
+                    }
+                    use csi::BinningIndex;
+                    use csi::binning_index::ReferenceSequence as _;
+                    let _ = index.header();
+                    let _ = index.unplaced_unmapped_record_count();
+                    let _ = index.last_first_record_start_position();
+                    for rs in index.reference_sequences() {
+                        let _ = format!("{:?}", rs.metadata());
+                    }
+                }};
+            }
+            match kind {
+                "bai" => {
+                    if let Ok(ix) = bam::bai::io::Reader::new(index_bytes).read_index() {
+                        run_bam!(ix)
+                    }
+                }
+                "csi" => {
+                    if let Ok(ix) = csi::io::Reader::new(index_bytes).read_index() {
+                        run_bam!(ix)
+                    }
+                }
+                _ => {
+                    if let Ok(ix) = tabix::io::Reader::new(index_bytes).read_index() {
+                        run_bam!(ix)
+                    }
+                }
+            }
+        }
+        "gzi" => {
+            if let Ok(ix) = bgzf::gzi::io::Reader::new(index_bytes).read_index() {
+                let mut rd = bgzf::io::Reader::new(Cursor::new(&data.bam[..]));
+                let mut buf = [0u8; 64];
+                for p in [0u64, 1, 100, 65535, 65536, 1 << 20, u32::MAX as u64, u64::MAX / 2, u64::MAX] {
+                    let _ = ix.query(p);
+                    if rd.seek_by_uncompressed_position(&ix, p).is_ok() {
+                        let _ = rd.read(&mut buf);
+                    }
+                }
+                if let Ok(mut ir) = std::panic::catch_unwind(|| 0).map(|_| bgzf::io::IndexedReader::new(Cursor::new(&data.bam[..]), ix.clone())) {
+                    use std::io::{Seek, SeekFrom};
+                    for p in [0u64, 7, 70000, u64::MAX] {
+                        if ir.seek(SeekFrom::Start(p)).is_ok() {
+                            let _ = ir.read(&mut buf);
+                        }
+                    }
+                }
+            }
+        }
+        "fai" => {
+            if let Ok(ix) = fasta::fai::io::Reader::new(index_bytes).read_index() {
+                let names: Vec<String> = ix.as_ref().iter().map(|r| String::from_utf8_lossy(r.name().as_ref()).into_owned()).take(6).collect();
+                let mut ir = fasta::io::IndexedReader::new(Cursor::new(&data.fasta[..]), ix);
+                for n in names.iter().map(|s| s.as_str()).chain(["sq0", "sq1"]) {
+                    for suffix in ["", ":1-10", ":5", ":100000-100010"] {
+                        if let Ok(region) = format!("{n}{suffix}").parse::<Region>() {
+                            let _ = ir.query(&region);
+                        }
+                    }
+                }
+            }
+        }
+        "crai" => {
+            if let Ok(ix) = cram::crai::io::Reader::new(index_bytes).read_index() {
+                let mut rd = cram::io::reader::Builder::default().set_reference_sequence_repository(data.repo.clone()).build_from_reader(Cursor::new(&data.cram[..]));
+                if let Ok(header) = rd.read_header() {
+                    for region in &regions {
+                        if let Ok(q) = rd.query(&header, &ix, region) {
+                            for (i, rec) in q.records().enumerate() {
+                                if rec.is_err() || i > MAX_RESULTS {
+                                    break;
+                                }
+                            }
+                        }
+                    }
+                    if let Ok(q) = rd.query_unmapped(&header, &ix) {
+                        for (i, rec) in q.enumerate() {
+                            if rec.is_err() || i > MAX_RESULTS {
+                                break;
+                            }
+                        }
+                    }
+                }
+            }
+        }
+        _ => {}
+    });
+    if let Err(info) = r {
+        if info.in_harness() {
+            fails.push(shard::HARNESS_PANIC, info.describe());
+        } else {
+            fails.push(info.sig(), format!("{} while querying with a corrupted {kind} index ({what})", info.describe()));
+        }
+    }
+}
+
+struct DataFile {
+    bam: Vec<u8>,
+    vcf_gz: Vec<u8>,
+    fasta: Vec<u8>,
+    cram: Vec<u8>,
+    repo: fasta::Repository,
+}
+
+fn data_file(doc: &Option<Doc>) -> DataFile {
+    // a fixed small sorted document when none is given
+    let aln = match doc {
+        Some(Doc::Aln(a)) => a.sorted(),
+        _ => drivers::AlnDoc { refs: vec![900, 500], ref_seed: 5, read_group: false, comments: vec![], records: vec![], flush_every: 2 },
+    };
+    let mut bam = Vec::new();
+    let _ = drivers::sync::write_bam(&aln, &mut bam);
+    let mut cram = Vec::new();
+    let _ = drivers::sync::write_cram(&aln, &mut cram, Some(3));
+    let var = drivers::VarDoc { contigs: vec![5000, 3000], samples: 1, records: vec![], flush_every: 0, minor: 2 };
+    let mut vcf_gz = Vec::new();
+    let _ = drivers::by_name("vcf.gz").unwrap().write(&Doc::Var(var), &mut vcf_gz);
+    let mut fasta = Vec::new();
+    for (name, seq) in aln.references() {
+        fasta.extend_from_slice(format!(">{name}\n").as_bytes());
+        for ch in seq.chunks(60) {
+            fasta.extend_from_slice(ch);
+            fasta.push(b'\n');
+        }
+    }
+    DataFile { bam, vcf_gz, fasta, cram, repo: drivers::sync::repository_of(&aln) }
+}
+
+fn check(t: &Target, c: &Case) -> Verdict {
+    let drv = drivers::by_name(t.driver).ok_or_else(|| vec![Fail::new(shard::HARNESS_PANIC, format!("no driver {}", t.driver))])?;
+    let extra = t.extra_driver.and_then(drivers::by_name);
+    let file = match drivers::write_to_vec(drv.as_ref(), &c.doc) {
+        Ok(b) => b,
+        Err(e) => return fail1(format!("c15.baseline-write-error:{}", t.name), format!("writing the generated document failed: {e}")),
+    };
+    let prep = match prepare(t, &file) {
+        Ok(p) => p,
+        Err(e) => return fail1(format!("c15.baseline-prepare:{}", t.name), e),
+    };
+    let is_index = matches!(t.driver, "bai" | "csi" | "tabix" | "gzi" | "fai" | "crai");
+    let data = if is_index { Some(data_file(&c.data_doc)) } else { None };
+    let muts = family(prep.base.len(), c.seed);
+    let opts = ReadOpts { sweep: true, vpos: false, max_events: 20_000, ..ReadOpts::default() };
+    let mut fails = Fails::new();
+    let mut past_validation = 0u64;
+    let mut n = 0u64;
+    for (i, m) in muts.iter().enumerate() {
+        if let Some(only) = c.only {
+            if only as usize != i {
+                continue;
+            }
+        }
+        n += 1;
+        let bytes = Arc::new(finalize(t, &prep, apply(&prep.base, m)));
+        let what = format!("mutant #{i} {m:?} of a {}-byte input", prep.base.len());
+        for d in std::iter::once(&drv).chain(extra.iter()) {
+            let r = panics::catch(|| d.read(&bytes, &Delivery::Plain, &c.doc, &opts));
+            match r {
+                Ok((tr, _)) => {
+                    if tr.iter().any(|e| matches!(e, Ev::Header(_) | Ev::Record(_) | Ev::Index(_))) {
+                        past_validation += 1;
+                    }
+                    if tr.iter().any(|e| matches!(e, Ev::Runaway)) {
+                        fails.push(format!("c15.runaway:{}", d.name()), format!("reader keeps producing events on {what}"));
+                    }
+                }
+                Err(info) => {
+                    if info.in_harness() {
+                        fails.push(shard::HARNESS_PANIC, info.describe());
+                    } else {
+                        fails.push(info.sig(), format!("{} — reader {} on {what}", info.describe(), d.name()));
+                    }
+                }
+            }
+        }
+        if let Some(df) = &data {
+            query_battery(t.driver, &bytes, df, &mut fails, &what);
+        }
+        if fails.0.len() >= 16 {
+            break;
+        }
+    }
+    fails.finish(
+        Pass::new(past_validation > 0, key_of(&c.doc))
+            .evals(n.max(1))
+            .label_if(past_validation > 0, "mutants-past-first-validation")
+            .label_if(past_validation * 2 > n, "majority-past-first-validation")
+            .label_if(prep.base.len() <= ALL_POSITIONS_LIMIT, "every-position")
+            .label_if(prep.base.len() > ALL_POSITIONS_LIMIT, "sampled-positions"),
+    )
+}
+
+/// Arbitrary index *values* (not files): unsorted gzi entries, crai records and fai records with
+/// arbitrary numbers, used to query valid data.
+#[derive(Clone, Debug, Serialize, Deserialize)]
+pub struct ArbIndexCase {
+    pub gzi: Vec<(u64, u64)>,
+    pub crai: Vec<(Option<u32>, u32, u32, u64, u64, u64)>,
+    pub fai: Vec<(u64, u64, u32, u32)>,
+    pub positions: Vec<u64>,
+}
+
+fn arb_u64() -> BoxedStrategy<u64> {
+    prop_oneof![0u64..70000, any::<u64>(), proptest::sample::select(vec![0u64, 1, 65535, 65536, 65537, u32::MAX as u64, u64::MAX, u64::MAX - 1, 1 << 48, (1 << 48) - 1])].boxed()
+}
+
+fn check_arb_index(c: &ArbIndexCase) -> Verdict {
+    let df = data_file(&None);
+    let mut fails = Fails::new();
+    let r = panics::catch(|| {
+        // gzi
+        let ix = bgzf::gzi::Index::from(c.gzi.clone());
+        let mut rd = bgzf::io::Reader::new(Cursor::new(&df.bam[..]));
+        let mut buf = [0u8; 32];
+        for p in &c.positions {
+            let _ = ix.query(*p);
+            if rd.seek_by_uncompressed_position(&ix, *p).is_ok() {
+                let _ = rd.read(&mut buf);
+            }
+        }
+        // crai
+        let recs: Vec<cram::crai::Record> = c
+            .crai
+            .iter()
+            .map(|(r, s, span, off, lm, sl)| cram::crai::Record::new(r.map(|x| x as usize), noodles_core::Position::new(*s as usize), *span as usize, *off, *lm, *sl))
+            .collect();
+        let mut cr = cram::io::reader::Builder::default().set_reference_sequence_repository(df.repo.clone()).build_from_reader(Cursor::new(&df.cram[..]));
+        if let Ok(header) = cr.read_header() {
+            for region in ["sq0", "sq0:1-50", "sq1:10-20"] {
+                let region: Region = region.parse().unwrap();
+                if let Ok(q) = cr.query(&header, &recs, &region) {
+                    for (i, rec) in q.records().enumerate() {
+                        if rec.is_err() || i > 2000 {
+                            break;
+                        }
+                    }
+                }
+            }
+            if let Ok(q) = cr.query_unmapped(&header, &recs) {
+                for (i, rec) in q.enumerate() {
+                    if rec.is_err() || i > 2000 {
+                        break;
+                    }
+                }
+            }
+        }
+        // fai
+        let frecs: Vec<fasta::fai::Record> = c
+            .fai
+            .iter()
+            .enumerate()
+            .map(|(i, (len, off, lb, lw))| {
+                fasta::fai::Record::new(format!("sq{i}"), *len, *off, std::num::NonZero::new((*lb as u64).max(1)).unwrap(), std::num::NonZero::new((*lw as u64).max(1)).unwrap())
+            })
+            .collect();
+        let mut ir = fasta::io::IndexedReader::new(Cursor::new(&df.fasta[..]), fasta::fai::Index::from(frecs));
+        for region in ["sq0", "sq0:1-10", "sq1:5", "sq0:400-500", "sq1"] {
+            let region: Region = region.parse().unwrap();
+            let _ = ir.query(&region);
+        }
+    });
+    if let Err(info) = r {
+        if info.in_harness() {
+            fails.push(shard::HARNESS_PANIC, info.describe());
+        } else {
+            fails.push(info.sig(), format!("{} while querying valid data with an arbitrary index value", info.describe()));
+        }
+    }
+    fails.finish(Pass::new(!c.gzi.is_empty() || !c.crai.is_empty() || !c.fai.is_empty(), key_of(c)))
+}
 
 pub fn property() -> Property {
-    Property { id: "C15", level: "exploration", rule: "", assumptions: vec![], subs: vec![], max_parallel: 16 }
+    let mut subs: Vec<Box<dyn DynSub>> = Vec::new();
+    for t in TARGETS {
+        let (q, th) = match t.name {
+            "cram-sealed" | "cram-file" => (6, 200),
+            "bgzf" => (8, 240),
+            n if n.ends_with("-payload") => (10, 300),
+            _ => (12, 400),
+        };
+        subs.push(
+            ClosureSub::<Case> {
+                name: t.name.to_string(),
+                rule: "one case = one valid file and its deterministic mutant family (one byte substitution per position, boundary words at about half of the positions, byte deletions/duplications, truncations, noise behind the magic; every position for inputs ≤3000 bytes); evaluations counts mutants; non-trivial = at least one mutant got past the first validation layer (a header, record or index was returned); distinct by hash of the document".into(),
+                strategy: Box::new(move |tier| {
+                    let d = drivers::by_name(t.driver).unwrap();
+                    let doc = if t.name == "bgzf" {
+                        use crate::r#gen::payload::payload;
+                        (payload(2500), proptest::collection::vec(0u16..=1000, 0..4), proptest::option::of(0u8..=9)).prop_map(|(payload, flushes, level)| Doc::Bytes { payload, flushes, level }).boxed()
+                    } else {
+                        d.doc(tier)
+                    };
+                    (doc, proptest::option::of(drivers::aln_doc(8).prop_map(Doc::Aln)), any::<u32>()).prop_map(|(doc, data_doc, seed)| Case { doc, data_doc, seed, only: None }).boxed()
+                }),
+                check: Box::new(move |c| check(t, c)),
+                quick: q,
+                thorough: th,
+                opts: SubOpts { max_shards: 4, isolate: true, hang_is_violation: true, case_budget_s: 60, max_shrink_iters: 40, timeout_s: (1500, 10800), ..SubOpts::default() },
+            }
+            .boxed(),
+        );
+    }
+    subs.push(
+        sub(
+            "arbitrary-index-values",
+            "arbitrary gzi entries (unsorted, huge), crai records and fai records used to seek/query valid BAM/CRAM/FASTA data; non-trivial = at least one index non-empty",
+            |_| {
+                (
+                    proptest::collection::vec((arb_u64(), arb_u64()), 0..8),
+                    proptest::collection::vec((proptest::option::of(0u32..4), any::<u32>(), any::<u32>(), arb_u64(), arb_u64(), arb_u64()), 0..6),
+                    proptest::collection::vec((arb_u64(), arb_u64(), any::<u32>(), any::<u32>()), 0..3),
+                    proptest::collection::vec(arb_u64(), 1..6),
+                )
+                    .prop_map(|(gzi, crai, fai, positions)| ArbIndexCase { gzi, crai, fai, positions })
+                    .boxed()
+            },
+            check_arb_index,
+            1500,
+            40_000,
+        )
+        .with(|o| {
+            o.isolate = true;
+            o.hang_is_violation = true;
+            o.case_budget_s = 20;
+        })
+        .boxed(),
+    );
+    Property {
+        id: "C15",
+        level: "exploration",
+        rule: "valid files / indexes per target × mutation family (byte substitutions at every position, boundary words, deletions, truncations, noise) applied where it reaches the decoders (uncompressed BAM/BCF, re-framed BGZF payloads, re-sealed CRAM) with the accessor sweep on; index mutants that read Ok query valid data",
+        assumptions: vec![
+            "a panic is attributed to noodles when its location is outside the harness sources (dependencies called by noodles included)".into(),
+            "successful large allocations are not failures; watchdog expiry counts only when reproduced alone with the 10× budget".into(),
+            "CRAM codec decoders on arbitrary bytes are covered by the codec sub-checks once the C08 module is integrated".into(),
+        ],
+        subs,
+        max_parallel: 8,
+    }
 }
